@@ -125,4 +125,68 @@ theorem mem_fullGC_managed (s : St) (fails : List Path) (p : Path) :
   simp only [fullGC, List.mem_filter, List.contains_eq_mem, Bool.not_eq_true', decide_eq_false_iff_not,
     Bool.and_eq_true, decide_eq_true_eq]
 
+theorem visible_sync (a : AtomSt) : a.sync.visible = a.visible := by
+  simp [AtomSt.sync, AtomSt.visible]
+
+theorem visibleManaged_step (s : Dir) (op : Op) (h : ∀ b, op ≠ .atomicWrite MANAGED b) :
+    visibleManaged (s.step op) = visibleManaged s := by
+  unfold visibleManaged
+  cases op with
+  | syncDir => simp [Dir.step, visible_sync]
+  | atomicWrite q b =>
+    have hq : MANAGED ≠ q := fun e => h b (by rw [e])
+    simp [Dir.step, upd_other _ _ _ _ hq]
+  | _ => simp [Dir.step]
+
+theorem RInv.step {s : Dir} (h : RInv s) (op : Op) (hok : RegOK s op) : RInv (s.step op) := by
+  intro p hp
+  by_cases hw : ∃ b, op = .atomicWrite MANAGED b
+  · obtain ⟨b, rfl⟩ := hw
+    have hv : visibleManaged (s.step (.atomicWrite MANAGED b)) = b.refs := by
+      simp [visibleManaged, Dir.step, AtomSt.visible]
+    rw [hv]
+    have hf : (s.step (.atomicWrite MANAGED b)).file p = s.file p := by simp [Dir.step]
+    rw [hf] at hp
+    exact hok rfl p hp
+  · have hw' : ∀ b, op ≠ .atomicWrite MANAGED b := fun b e => hw ⟨b, e⟩
+    rw [visibleManaged_step s op hw']
+    cases op with
+    | create q =>
+      by_cases hq : p = q
+      · subst hq; exact hok
+      · apply h; simpa [Dir.step, upd_other _ _ _ _ hq] using hp
+    | write q n =>
+      by_cases hq : p = q
+      · subst hq; apply h
+        simpa [Dir.step, FileSt.mayPresent] using hp
+      · apply h; simpa [Dir.step, upd_other _ _ _ _ hq] using hp
+    | flush q =>
+      by_cases hq : p = q
+      · subst hq; apply h
+        simpa [Dir.step, FileSt.mayPresent] using hp
+      · apply h; simpa [Dir.step, upd_other _ _ _ _ hq] using hp
+    | terminate q =>
+      by_cases hq : p = q
+      · subst hq; apply h
+        simpa [Dir.step, FileSt.mayPresent] using hp
+      · apply h; simpa [Dir.step, upd_other _ _ _ _ hq] using hp
+    | syncDir =>
+      apply h
+      simp only [Dir.step, FileSt.sync, FileSt.mayPresent] at hp
+      simp only [FileSt.mayPresent]
+      cases hvis : (s.file p).vis <;> simp [hvis] at hp ⊢
+    | atomicWrite q b => apply h; simpa [Dir.step] using hp
+    | delete q =>
+      by_cases hq : p = q
+      · subst hq; exact h p hok
+      · apply h; simpa [Dir.step, upd_other _ _ _ _ hq] using hp
+    | ack c => apply h; simpa [Dir.step] using hp
+
+theorem RInv.run {s : Dir} (h : RInv s) (t : List Op) (hd : RegDisc s t) : RInv (s.run t) := by
+  induction t generalizing s with
+  | nil => exact h
+  | cons op t ih =>
+    simp only [Dir.run, List.foldl_cons]
+    exact ih (h.step op hd.1) hd.2
+
 end TantivyModel.GC
